@@ -1227,3 +1227,18 @@ func (u *Universe) KeysOfClass(class string) []int {
 	}
 	return out
 }
+
+// profileIDsOf returns the profile ids named by candidate value v of endpoint key k.
+func (u *Universe) profileIDsOf(k, v int) []string {
+	switch e := u.Keys[k].Values[v].New().(type) {
+	case *model.WorkloadEndpoint:
+		return e.ProfileIDs
+	case *model.HostEndpoint:
+		return e.ProfileIDs
+	}
+	return nil
+}
+
+func (u *Universe) profileNameOfRulesKey(k int) string {
+	return u.Keys[k].Key.(model.ProfileRulesKey).Name
+}
